@@ -252,7 +252,7 @@ def replay(ctx, files, cats, canary_every=5000, oneshot=False, keep=3000, timeou
     ctx.unspec += s["unspecified_skipped"]
     ctx.canaries_in += s["canaries_injected"]
     ctx.canaries_hit += s["canaries_caught"]
-    for x in s["samples"]:
+    for x in s["samples"] or []:
         if len(ctx.samples) < 8:
             ctx.samples.append(x)
     other = {}
